@@ -22,7 +22,7 @@ REPO = Path(os.environ.get("VERIF_REPO", "/repo"))
 EVID = ROOT / "evidence"
 REPLAYS = ROOT / "replays"
 CORPUS = ROOT / "corpus"
-KNOWN = ROOT / "known_findings.jsonl"
+KNOWN = ROOT / "known_findings.txt"
 ALLOWED_AXIOMS = {"propext", "Classical.choice", "Quot.sound"}
 FORBIDDEN = re.compile(
     r"\bsorry\b|\badmit\b|^\s*axiom\s|native_decide|bv_decide|implemented_by|\bunsafe\s|maxHeartbeats\s+0\b",
@@ -231,16 +231,25 @@ class Driver:
 
 
 def load_known(pid: str):
+    """known_findings.txt: one entry per line, never written at run time.
+    `{json}` with status "known" = a recorded genuine defect (suppresses exactly its signature);
+    `fixed: property=<id> <commit> <what failed>` = repaired by a fix: commit (suppresses nothing)."""
     known, fixed = [], []
     if KNOWN.exists():
         for line in KNOWN.read_text().splitlines():
             line = line.strip()
             if not line or line.startswith("#"):
                 continue
+            if line.startswith("fixed:"):
+                m = re.match(r"fixed:\s+property=(\S+)\s+(\S+)\s+(.*)", line)
+                if m and m.group(1) == pid:
+                    fixed.append({"property": pid, "commit": m.group(2), "what": m.group(3)})
+                continue
             e = json.loads(line)
             if e.get("property") != pid:
                 continue
-            (known if e.get("status") == "known" else fixed).append(e)
+            if e.get("status") == "known":
+                known.append(e)
     return known, fixed
 
 
